@@ -39,14 +39,14 @@ var props = map[string]*propDef{
 		level: "fault_enumeration", engine: "gensim",
 		rule:    "each simulation draws a module and scripted generators (declaration pool with comments, odd whitespace, std and in-module references, new named types), runs it fault-free (F1-F6 on every written file: go/parser, header comment, package name, token-for-token comparison with the rendered declarations, gofmt and gofumpt fixed points) and then re-runs it once per enumerated I/O failure point of the recorded trace (every write-open of every output file and of gengo.sum with 3-6 errnos, first/last/middle/random writes with ENOSPC/EIO/EDQUOT and a short count, every remove); distinct = distinct (world, failure point); non-trivial = the fault fired",
 		sims:    map[string]int{"quick": 24, "thorough": 3000},
-		budget:  map[string]time.Duration{"quick": 30 * time.Second, "thorough": 15 * time.Minute},
+		budget:  map[string]time.Duration{"quick": 25 * time.Second, "thorough": 15 * time.Minute},
 		explore: func(c *sim.CheckCtx) { c.Explore("c01", sim.SimC01) },
 	},
 	"C02": {
 		level: "fault_enumeration", engine: "gensim",
 		rule:    "each simulation builds a world that already holds outputs and a gengo.sum, edits sources, records the victim run fault-free and re-runs it once per failure point of the recorded trace: an error from every GenerateType/GenerateAliasType/Defer callback, unparseable rendering for every (generator, package), a real SIGKILL before every event of the Execute phase (all events in the quick tier's small worlds, a stratified sample in thorough), torn writes; each faulty variant is followed by fault-free recovery runs and compared with the never-failed execution; distinct = distinct (world, failure point)",
 		sims:    map[string]int{"quick": 12, "thorough": 600},
-		budget:  map[string]time.Duration{"quick": 35 * time.Second, "thorough": 20 * time.Minute},
+		budget:  map[string]time.Duration{"quick": 30 * time.Second, "thorough": 20 * time.Minute},
 		explore: func(c *sim.CheckCtx) { c.Explore("c02", sim.SimC02) },
 	},
 	"C06": {
